@@ -127,7 +127,12 @@ pub fn emit(out: &mut Out, worker: &mut Worker, text: &str, rng: &mut Rng, thoro
         k += 1;
         // recovery on, for rejected inputs, in the killable worker
         if !accepted && w.len() <= 8 {
-            if let WResult::Ok(p2) = worker.parse(text, w, true, None, std::time::Duration::from_millis(2500)) {
+            let wr = worker.parse(text, w, true, None, std::time::Duration::from_millis(2500));
+            if let WResult::Panic(m) = &wr {
+                // e.g. a span that starts after it ends, built from a misplaced inserted lexeme
+                hfail.get_or_insert(format!("parser panicked under recovery on {:?}: {}", w, m));
+            }
+            if let WResult::Ok(p2) = wr {
                 if p2.wall_ms < 450 {
                     if let (Some(tt), true) = (&p2.tree, !p2.log.is_empty()) {
                         // re-run in process to get the structured result (deterministic now)
